@@ -336,6 +336,10 @@ def capture_programs():
             ('class-global-read-two-deep', '%(n)s = "module level"\ndef make_class(%(n)s):\n    def middle_function():\n        class Holder:\n            global %(n)s\n            seen = (%(n)s, %(n)s)\n        return Holder.seen\n    return middle_function(), %(n)s, %(n)s\nprint(make_class("parameter"))\n'),
             ('class-global-assign', '%(n)s = "module level"\ndef make_class():\n    %(n)s = "local of make_class"\n    class Holder:\n        global %(n)s\n        %(n)s = "set by the class body"\n        seen = %(n)s\n    return %(n)s, %(n)s, Holder.seen\nprint(make_class(), %(n)s)\n'),
             ('class-nonlocal-read', 'def make_class():\n    %(n)s = "local of make_class"\n    class Holder:\n        nonlocal %(n)s\n        seen = [%(n)s, %(n)s]\n        %(n)s = "set by the class body"\n    return %(n)s, Holder.seen, hasattr(Holder, "%(n)s")\nprint(make_class())\n'),
+            ('method-nonlocal-class-attribute', 'def make_counter():\n    %(n)s = 0\n    class Counter:\n        %(n)s = "unrelated class attribute"\n        def step(self):\n            nonlocal %(n)s\n            %(n)s += 1\n            return %(n)s\n    return Counter().step(), Counter().step(), Counter.%(n)s, %(n)s\nprint(make_counter())\n'),
+            ('method-global-class-attribute', '%(n)s = 10\ndef make_counter():\n    %(n)s = 0\n    class Counter:\n        %(n)s = "unrelated class attribute"\n        def step(self):\n            global %(n)s\n            %(n)s += 1\n            return %(n)s\n    return Counter().step(), Counter().step(), Counter.%(n)s, %(n)s\nprint(make_counter(), %(n)s)\n'),
+            ('method-free-read-class-attribute', 'def make_reader(%(n)s):\n    class Reader:\n        %(n)s = "unrelated class attribute"\n        def read(self):\n            return %(n)s, %(n)s, self.%(n)s\n    return Reader().read(), %(n)s\nprint(make_reader("parameter"))\n'),
+            ('nested-class-reads-outer-class-name', 'def make_classes(%(n)s):\n    class Outer:\n        %(n)s = "outer class attribute"\n        class Inner:\n            seen = [%(n)s, %(n)s]\n            def read(self):\n                return %(n)s\n    return Outer.Inner.seen, Outer.Inner().read(), Outer.%(n)s, %(n)s\nprint(make_classes("parameter"))\n'),
             ('class-free-read', 'def make_class(%(n)s):\n    class Holder:\n        seen = [%(n)s, %(n)s, %(n)s]\n        def method(self):\n            return %(n)s\n    return Holder.seen, Holder().method(), %(n)s\nprint(make_class("parameter"))\n'),
             ('class-local-same-spelling', 'def make_class(%(n)s):\n    class Holder:\n        %(n)s = "class level"\n        after = %(n)s\n        def method(self):\n            return %(n)s\n    return Holder.after, Holder().method(), Holder.%(n)s\nprint(make_class("parameter"))\n'),
             ('class-bases-in-enclosing-scope', 'def make_class(%(n)s):\n    class Holder(%(n)s, metaclass=type(%(n)s)):\n        %(n)s = 1\n    return Holder.__mro__[1].__name__, Holder.%(n)s\nprint(make_class(dict))\n'),
